@@ -116,6 +116,21 @@ def direct(h) -> dict:
     return out
 
 
+_CONFS: dict = {}
+CONF_NAMES = ('default', 'tower', 'overrides')
+
+
+def conf_kwargs(name: str) -> dict:
+    """keyword arguments selecting the configuration: {} = none passed (the default configuration)"""
+    if name == 'default':
+        return {}
+    if name not in _CONFS:
+        from beartype import BeartypeConf, BeartypeHintOverrides
+        _CONFS[name] = {'tower': lambda: BeartypeConf(is_pep484_tower=True),
+                        'overrides': lambda: BeartypeConf(hint_overrides=BeartypeHintOverrides({bytes: bytes | bytearray}))}[name]()
+    return {'conf': _CONFS[name]}
+
+
 def run_hint(node, apis, objs, with_descr=True) -> list:
     """all records of one hint"""
     from beartype import beartype
@@ -123,6 +138,10 @@ def run_hint(node, apis, objs, with_descr=True) -> list:
     # H.RAISED is NOT cleared between the hints of one child: beartype memoises exceptions (callable_cached), so the user
     # exception escaping now may be the very object user code raised while an earlier hint of this history was processed
     H.SCRIPTS.clear()
+    # the configuration rides in `objs` as a pseudo-object name 'conf:<name>' (so that it reaches shrinking and replays)
+    conf_name = next((o[5:] for o in objs if o.startswith('conf:')), 'default')
+    objs = [o for o in objs if not o.startswith('conf:')]
+    ck = conf_kwargs(conf_name)
     try:
         h = H.build(node)
     except H.Unbuildable as e:
@@ -144,18 +163,18 @@ def run_hint(node, apis, objs, with_descr=True) -> list:
                 def f(x):
                     return x
                 f.__annotations__ = {'x' if api == 'decor_param' else 'return': h}
-                box['g'] = beartype(f)
+                box['g'] = beartype(**ck)(f) if ck else beartype(f)
             r = rec(api, 'decor', None, deco)
             if r['status'] == 'ok':
                 for o in objs:
                     rec(api.replace('decor', 'call'), 'call', o, lambda: box['g'](OBJS[o]))
         elif api == 'is_bearable':
             for o in objs[:2]:
-                rec(api, 'is_bearable', o, lambda: is_bearable(OBJS[o], h))
-            rec(api, 'is_bearable', objs[0], lambda: is_bearable(OBJS[objs[0]], h))      # again: memoised path
+                rec(api, 'is_bearable', o, lambda: is_bearable(OBJS[o], h, **ck))
+            rec(api, 'is_bearable', objs[0], lambda: is_bearable(OBJS[objs[0]], h, **ck))      # again: memoised path
         elif api == 'die_if_unbearable':
             for o in objs[:2]:
-                rec(api, 'die_if_unbearable', o, lambda: die_if_unbearable(OBJS[o], h))
+                rec(api, 'die_if_unbearable', o, lambda: die_if_unbearable(OBJS[o], h, **ck))
         elif api == 'TypeHint':
             box = {}
 
@@ -165,7 +184,7 @@ def run_hint(node, apis, objs, with_descr=True) -> list:
             if r['status'] == 'ok':
                 rec('TypeHint.repr', 'TypeHint', None, lambda: repr(box['t']))
                 rec('TypeHint.eq', 'TypeHint', None, lambda: box['t'] == TypeHint(int))
-                rec('TypeHint.is_bearable', 'is_bearable', objs[0], lambda: box['t'].is_bearable(OBJS[objs[0]]))
+                rec('TypeHint.is_bearable', 'is_bearable', objs[0], lambda: box['t'].is_bearable(OBJS[objs[0]], **ck))
         elif api == 'is_subhint':
             rec('is_subhint(h,int)', 'is_subhint', None, lambda: is_subhint(h, int))
             rec('is_subhint(int,h)', 'is_subhint', None, lambda: is_subhint(int, h))
